@@ -3,13 +3,33 @@
 From God Require Import Base.Prelude.
 From God Require Export C16.Model.
 From GodGen Require C16_Gen.
+From Coq Require Import FMapPositive.
+Module PM := PositiveMap.
 Local Open Scope Z_scope.
+
+(* ---------- large-row cases (sqlx.BulkInserter: maxBulkRows = 1000 is a constant) ----------
+   ids are positives, sequence numbers are N, lookups go through PositiveMap. *)
+Inductive bop := BIns (first : positive) (n : nat)   (* rows first .. first+n-1 inserted in this order *)
+               | BTick | BFlush.
+
+Record bigcase := mkbig {
+  g_ops : list bop;
+  g_adds : list (positive * N * N);            (* row id, Insert call, Insert return; in id order *)
+  g_calls : list (N * N);                      (* Flush call, return *)
+  g_ticks : list (N * bool * N);               (* offered, delivered, settled *)
+  g_batches : list (list positive * N * N);    (* rows of an executed statement, Exec entry, Exec exit *)
+  g_hung : bool;
+  g_pending : nat
+}.
 
 Record addobs := mkadd { a_id : nat; a_call : nat; a_ret : nat }.            (* one Add call *)
 Record callobs := mkcall { k_wait : bool; k_call : nat; k_ret : nat }.       (* one Flush (false) / Wait (true) call *)
 Record tickobs := mktick { t_seq : nat; t_delivered : bool; t_done : nat }.  (* one tick offered to the live flusher *)
 Record batchobs := mkbatch { b_ids : list nat; b_start : nat; b_end : nat }. (* one call of the execute function *)
 Record opobs := mkop { p_nb : nat; p_guarded : bool; p_starts : nat; p_stops : nat }. (* after each script op *)
+
+(* stat.Metrics: what Execute received besides the tasks, and the StatReport written for it *)
+Record repobs := mkrep { r_drops : nat; r_dur_ms : Z; r_count : Z; r_rdrops : nat; r_sum_ms : Z }.
 
 Record case := mkcase {
   c_chunk : bool;
@@ -24,7 +44,13 @@ Record case := mkcase {
   c_batches : list batchobs;         (* in order of completion *)
   c_perop : list opobs;
   c_hung : bool;                     (* some call never returned / the executor never became quiescent *)
-  c_pending : nat                    (* len(pe.commander) at the end *)
+  c_pending : nat;                   (* len(pe.commander) at the end *)
+  c_model : nat;                     (* 0: replay c_ops with per-operation comparison; 1: conservation only;
+                                        2: replay c_ops, compare the batches and the tick deliveries *)
+  c_stat : bool;                     (* stat.Metrics case: c_reports is aligned with c_batches *)
+  c_drops : nat;                     (* number of AddDrop calls *)
+  c_reports : list repobs;
+  c_big : option bigcase             (* Some: sqlx.BulkInserter case, everything else is ignored *)
 }.
 
 Definition second : Z := 1000000000.
@@ -74,8 +100,28 @@ Definition all_ids (c : case) : list nat := map a_id (c_adds c).
 Definition batch_ids (c : case) : list nat := concat (map b_ids (c_batches c)).
 Definition count (x : nat) (l : list nat) : nat := length (filter (Nat.eqb x) l).
 
-Definition model_ok (c : case) : bool :=
-  if c_seq c then
+(* mode 2: replay the script, compare executed batches (empty ones and the pseudo tasks standing for
+   AddDrop calls, ids >= drop_base, left out) and the tick deliveries *)
+Definition drop_base : nat := 900.
+Definition nonempty (l : list nat) : bool := match l with [] => false | _ => true end.
+
+Fixpoint model_rows2 (cf : config) (s : state) (ops : list sop) (ticks : list tickobs) : option state :=
+  match ops with
+  | [] => match ticks with [] => Some s | _ => None end
+  | o :: ops' =>
+      let (s', delivered) := seq_step cf s o in
+      if is_tick_op o then
+        match ticks with
+        | t :: ticks' => if Bool.eqb (t_delivered t) delivered then model_rows2 cf s' ops' ticks' else None
+        | [] => None
+        end
+      else model_rows2 cf s' ops' ticks
+  end.
+
+Definition small_model_ok (c : case) : bool :=
+  match c_model c with
+  | O =>
+    c_seq c &&
     match model_rows (cfg_of c) (init 1 t0) (c_ops c) (c_perop c) (c_ticks c) with
     | Some s =>
         list_eqb nat_list_eqb (s_executed s) (map b_ids (c_batches c)) &&
@@ -84,12 +130,21 @@ Definition model_ok (c : case) : bool :=
         Nat.eqb (length (s_returned s)) (length (c_adds c))
     | None => false
     end
-  else
+  | 1%nat =>
     (* concurrent phases: only conservation is compared (every reachable quiescent state of the model
        has executed exactly the added tasks, c16_quiescent_all_executed) *)
-    Nat.eqb (length (c_perop c)) (c_nops c) &&
     forallb (fun x => Nat.eqb (count x (batch_ids c)) 1) (all_ids c) &&
-    Nat.eqb (length (batch_ids c)) (length (all_ids c)).
+    Nat.eqb (length (batch_ids c)) (length (all_ids c))
+  | _ =>
+    match model_rows2 (cfg_of c) (init 1 t0) (c_ops c) (c_ticks c) with
+    | Some s =>
+        list_eqb nat_list_eqb
+          (filter nonempty (map (filter (fun x => Nat.ltb x drop_base)) (s_executed s)))
+          (filter nonempty (map b_ids (c_batches c))) &&
+        negb (c_hung c) && negb (s_panicked s)
+    | None => false
+    end
+  end.
 
 (* ---------- the property, on the observations alone ---------- *)
 Definition returned (a : addobs) : bool := negb (Nat.eqb (a_ret a) 0).
@@ -119,15 +174,17 @@ Definition at_most_once (c : case) : bool :=
 
 (* a batch lists its tasks in the order they were added: y never precedes x when Add(x) had
    returned before Add(y) was called *)
-Fixpoint ordered (c : case) (l : list nat) : bool :=
+Fixpoint ordered_from (c : case) (maxcall : nat) (l : list nat) : bool :=
   match l with
   | [] => true
-  | x :: r =>
-      forallb (fun y => match find_add c x, find_add c y with
-                        | Some ax, Some ay => negb (returned ay && Nat.ltb (a_ret ay) (a_call ax))
-                        | _, _ => false
-                        end) r && ordered c r
+  | y :: r =>
+      match find_add c y with
+      | Some ay => negb (returned ay && Nat.ltb (a_ret ay) maxcall) && ordered_from c (Nat.max maxcall (a_call ay)) r
+      | None => false
+      end
   end.
+(* maxcall = the latest Add call among the tasks listed before y *)
+Definition ordered (c : case) (l : list nat) : bool := ordered_from c 0 l.
 
 Definition sum_sizes (c : case) (l : list nat) : Z := fold_right (fun x acc => size_of c x + acc) 0 l.
 
@@ -178,11 +235,129 @@ Fixpoint ticks_ok (c : case) (l : list tickobs) : bool :=
       end && ticks_ok c r
   end.
 
-Definition spec_ok (c : case) : bool :=
+(* stat.Metrics: every Execute produced one report with the batch's own count / drops / duration, and
+   the drops are conserved *)
+Definition stat_ok (c : case) : bool :=
+  if c_stat c then
+    Nat.eqb (fold_right (fun r acc => (r_drops r + acc)%nat) 0%nat (c_reports c)) (c_drops c) &&
+    all2 (fun b r =>
+            (r_dur_ms r =? sum_sizes c (b_ids b)) && (r_count r =? Z.of_nat (length (b_ids b))) &&
+            Nat.eqb (r_rdrops r) (r_drops r) && (r_sum_ms r =? r_dur_ms r)) (c_batches c) (c_reports c)
+  else true.
+
+Definition small_spec_ok (c : case) : bool :=
   no_hang c && at_most_once c &&
   forallb (fun b => ordered c (b_ids b) && bound_ok c (b_ids b)) (c_batches c) &&
-  wait_ok c &&
+  wait_ok c && stat_ok c &&
   (if c_seq c then flush_ok c && ticks_ok c (c_ticks c) else true).
+
+(* ---------- sqlx.BulkInserter ---------- *)
+Definition max_bulk_rows : Z := C16_Gen.maxBulkRows.
+
+(* model: the dbInserter container (append; len >= maxBulkRows => cut off) under the sequential
+   projection of the flusher (a tick directly after a threshold batch is skipped) *)
+Record bst := mkbst { bs_tasks : list positive; bs_cmded : bool; bs_alive : bool; bs_out : list (list positive) }.
+
+Fixpoint pos_seq (first : positive) (n : nat) : list positive :=
+  match n with O => [] | S n' => first :: pos_seq (Pos.succ first) n' end.
+
+Definition b_add (mx : Z) (s : bst) (x : positive) : bst :=
+  let ts := bs_tasks s ++ [x] in
+  if bulk_full mx ts then mkbst [] true true (ts :: bs_out s) else mkbst ts (bs_cmded s) true (bs_out s).
+
+Definition b_flush (s : bst) : bst :=
+  match bs_tasks s with [] => s | ts => mkbst [] (bs_cmded s) (bs_alive s) (ts :: bs_out s) end.
+
+Fixpoint big_model (mx : Z) (s : bst) (ops : list bop) (ticks : list (N * bool * N)) : option bst :=
+  match ops with
+  | [] => match ticks with [] => Some s | _ => None end
+  | BIns first n :: r => big_model mx (fold_left (b_add mx) (pos_seq first n) s) r ticks
+  | BFlush :: r => big_model mx (b_flush s) r ticks
+  | BTick :: r =>
+      match ticks with
+      | (_, delivered, _) :: ticks' =>
+          if Bool.eqb delivered (bs_alive s) then
+            big_model mx (if bs_alive s then (if bs_cmded s then mkbst (bs_tasks s) false true (bs_out s) else b_flush s) else s) r ticks'
+          else None
+      | [] => None
+      end
+  end.
+
+Definition big_model_ok (g : bigcase) : bool :=
+  match big_model max_bulk_rows (mkbst [] false false []) (g_ops g) (g_ticks g) with
+  | Some s => list_eqb (list_eqb Pos.eqb) (rev (bs_out s)) (map (fun b => fst (fst b)) (g_batches g)) && negb (g_hung g)
+  | None => false
+  end.
+
+(* property, on the observations alone *)
+Definition addmap (g : bigcase) : PM.t (N * N) :=
+  fold_left (fun m a => PM.add (fst (fst a)) (snd (fst a), snd a) m) (g_adds g) (PM.empty _).
+
+(* every executed row was inserted (before the statement finished) and appears at most once;
+   the result maps a row to the moment its statement finished *)
+Definition scan_batches (am : PM.t (N * N)) (bs : list (list positive * N * N)) : option (PM.t N) :=
+  fold_left (fun acc b =>
+    fold_left (fun acc2 x =>
+      match acc2 with
+      | None => None
+      | Some seen =>
+          match PM.find x am, PM.find x seen with
+          | Some (c, _), None => if (c <? snd b)%N then Some (PM.add x (snd b) seen) else None
+          | _, _ => None
+          end
+      end) (fst (fst b)) acc) bs (Some (PM.empty N)).
+
+Fixpoint big_ordered (am : PM.t (N * N)) (maxcall : N) (l : list positive) : bool :=
+  match l with
+  | [] => true
+  | y :: r =>
+      match PM.find y am with
+      | Some (c, rt) => negb (negb (rt =? 0)%N && (rt <? maxcall)%N) && big_ordered am (N.max maxcall c) r
+      | None => false
+      end
+  end.
+
+Definition big_done_before (g : bigcase) (ends : PM.t N) (m1 m2 : N) : bool :=
+  forallb (fun a => if (negb (snd a =? 0) && (snd a <? m1))%N
+                    then match PM.find (fst (fst a)) ends with Some e => (e <? m2)%N | None => false end
+                    else true) (g_adds g).
+
+Definition big_call_between (g : bigcase) (m1 m2 : N) : bool :=
+  existsb (fun a => (m1 <? snd (fst a)) && (snd (fst a) <? m2))%N (g_adds g) ||
+  existsb (fun k => (m1 <? fst k) && (fst k <? m2))%N (g_calls g).
+
+Fixpoint big_ticks_ok (g : bigcase) (ends : PM.t N) (l : list (N * bool * N)) : bool :=
+  match l with
+  | [] => true
+  | (sq, dl, dn) :: r =>
+      (if dl then true else big_done_before g ends sq sq) &&
+      match r with
+      | (sq2, dl2, dn2) :: _ =>
+          if dl && dl2 && negb (big_call_between g sq dn2) then big_done_before g ends sq dn2 else true
+      | [] => true
+      end && big_ticks_ok g ends r
+  end.
+
+Definition big_spec_ok (g : bigcase) : bool :=
+  negb (g_hung g) && Nat.eqb (g_pending g) 0 &&
+  forallb (fun a => negb (snd a =? 0)%N) (g_adds g) && forallb (fun k => negb (snd k =? 0)%N) (g_calls g) &&
+  let am := addmap g in
+  match scan_batches am (g_batches g) with
+  | None => false
+  | Some ends =>
+      (* rows within a statement in insertion order, statement row count <= maxBulkRows *)
+      forallb (fun b => big_ordered am 0 (fst (fst b)) &&
+                        (Z.of_nat (length (fst (fst b))) <=? max_bulk_rows)) (g_batches g) &&
+      (* an explicit Flush executes every row inserted before it *)
+      forallb (fun k => big_done_before g ends (fst k) (snd k)) (g_calls g) &&
+      big_ticks_ok g ends (g_ticks g)
+  end.
+
+Definition model_ok (c : case) : bool :=
+  match c_big c with Some g => big_model_ok g | None => small_model_ok c end.
+
+Definition spec_ok (c : case) : bool :=
+  match c_big c with Some g => big_spec_ok g | None => small_spec_ok c end.
 
 (* input validity: unique task ids, a threshold of at least 1 *)
 Definition hyp_ok (c : case) : bool := nodup_nat (all_ids c) && (1 <=? c_max c).
